@@ -55,10 +55,17 @@ MUTANTS = [
      "SplitDistribution.update: = for +="),
     ("C05", TC, "            self.split_counts[split] += weight_to_use", "            self.split_counts[split] += 1.0", "count_splits_on_tree: tree weight ignored"),
     ("C05", TC, "        if tree.weight is not None and self.use_tree_weights:", "        if tree.weight is not None:", "count_splits_on_tree: use_tree_weights ignored"),
+    ("C05", TC, "            except (ValueError, TypeError):\n                pass\n        return self._split_node_age_summaries",
+     "            except (ValueError, TypeError):\n                pass\n        self._trees_counted_for_summaries = self.total_trees_counted\n        return self._split_node_age_summaries",
+     "calc_split_node_age_summaries marks the SHARED staleness counter current (the other table is then served stale)"),
+    ("C05", TC, "        if self._split_node_age_summaries is None \\\n                or self._trees_counted_for_summaries != self.total_trees_counted:\n            self.calc_split_node_age_summaries()",
+     "        if self._split_node_age_summaries is None:\n            self.calc_split_node_age_summaries()", "node-age summaries: staleness test dropped"),
     ("C06", TC, "        self._tree_weights.extend(other._tree_weights)\n        self._split_distribution.update(other._split_distribution)",
      "        self._split_distribution.update(other._split_distribution)", "TreeArray.update: one parallel list not extended"),
     ("C06", TC, "        self._tree_weights.extend(other._tree_weights)\n        self._split_distribution.update(other._split_distribution)",
      "        self._tree_weights.extend(other._tree_weights)", "TreeArray.update: summaries not merged"),
+    ("C06", TC, "        ta += self\n        ta += other\n        return ta", "        ta += self\n        return ta", "TreeArray.__add__: the second operand is not merged"),
+    ("C06", TC, "        ta += self\n        ta += other\n        return ta", "        self += other\n        return self", "TreeArray.__add__: the first operand is extended and returned"),
     ("C06", TC, "        self._tree_split_bitmasks.extend(other._tree_split_bitmasks)", "        self._tree_split_bitmasks = other._tree_split_bitmasks if not self._tree_split_bitmasks else self._tree_split_bitmasks + other._tree_split_bitmasks",
      "TreeArray.update: an empty master adopts the operand's list object"),
     ("C06", "dendropy/application/sumtrees.py", "            tree_source = self.work_queue.get()\n            if tree_source is None:\n                break",
@@ -100,6 +107,24 @@ MUTANTS = [
     ("C17", TM + "_tree.py", "                    for nnd in child_nodes[1:]:", "                    for nnd in child_nodes[2:]:", "calc_node_ages: second child not compared"),
     ("C17", TM + "_tree.py", "                        age_to_set = first_child.age + first_child.edge.length\n                    elif first_child.edge.length is None:",
      "                        age_to_set = first_child.age - first_child.edge.length\n                    elif first_child.edge.length is None:", "calc_node_ages: length subtracted"),
+    ("C16", "dendropy/model/parsimony.py", "                    score += wt\n", "                    score = wt\n", "fitch step: score overwritten instead of accumulated"),
+    ("C16", "dendropy/model/parsimony.py", "                    result.append(left_ss.union(left_ss, right_ss))", "                    result.append(left_ss.union(left_ss))", "fitch step: union drops the right set"),
+    ("C16", "dendropy/model/parsimony.py", "                        wt = weights[n]", "                        wt = weights[n - 1]", "fitch step: weight of the previous character"),
+    ("C16", "dendropy/model/parsimony.py", "                inter = left_ss.intersection(right_ss)\n                if inter:\n                    result.append(inter)",
+     "                inter = left_ss.intersection(right_ss)\n                if inter:\n                    result.append(left_ss)", "fitch step: left set kept when the sets meet"),
+    ("C16", "dendropy/model/parsimony.py", "                        score_by_character_list[n] += wt", "                        score_by_character_list[n] += 1", "fitch step: per-character score ignores the weight"),
+    ("C16", "dendropy/model/parsimony.py", "                        wt = 1\n", "                        wt = 1\n                        continue\n", "fitch step: unsupported statement (must be undecided, not a violation)"),
+    ("C11", "dendropy/datamodel/charmatrixmodel.py", "                taxon = char_matrix.taxon_namespace.require_taxon(key,\n                        is_case_sensitive=case_sensitive_taxon_labels)",
+     "                taxon = char_matrix.taxon_namespace.require_taxon(label=key)", "from_dict: the case flag is not handed to require_taxon"),
+    ("C16", "dendropy/model/parsimony.py", "        set_node_state_sets(nd, result)\n", "        set_node_state_sets(nd, left_ssl)\n", "fitch glue: the left child's list is stored for the node"),
+    ("C16", "dendropy/model/parsimony.py", "        left_c, right_c = c[:2]\n", "        right_c, left_c = c[-2:]\n", "fitch glue: the last two children instead of the first two (harmless on bifurcating trees: AST obligation only)"),
+    ("C16", "dendropy/model/parsimony.py", "        set_node_state_sets(nd, result)\n", "        set_node_state_sets(nd, result)\n        score += 0 if remaining is not None else 1\n", "fitch glue: score touched outside the step"),
+    ("C17", "dendropy/model/coalescent.py", "            tree, ultrametricity_precision=ultrametricity_precision\n        ),\n        haploid_pop_size,", "            tree\n        ),\n        haploid_pop_size,",
+     "log_probability_of_coalescent_tree: precision dropped (the repaired defect)"),
+    ("C17", "dendropy/model/multispeciescoalescent.py", "        self._species_tree.calc_node_ages(ultrametricity_precision=self.ultrametricity_precision)",
+     "        self._species_tree.calc_node_ages()", "MultispeciesCoalescent: species tree checked with the default precision"),
+    ("C17", "dendropy/datamodel/treecollectionmodel.py", "        self.ultrametricity_precision = ultrametricity_precision\n", "        self.ultrametricity_precision = constants.DEFAULT_ULTRAMETRICITY_PRECISION\n",
+     "SplitDistribution.__init__: given precision not kept"),
     ("C19", "dendropy/datamodel/charmatrixmodel.py", "            if taxon not in self._taxon_sequence_map:\n                self._taxon_sequence_map[taxon] = self.__class__.character_sequence_type(other_matrix._taxon_sequence_map[taxon])\n\n    def replace_sequences",
      "            self._taxon_sequence_map[taxon] = self.__class__.character_sequence_type(other_matrix._taxon_sequence_map[taxon])\n\n    def replace_sequences",
      "add_sequences: existing rows overwritten"),
@@ -127,6 +152,8 @@ MUTANTS = [
      "        ssrc = StringIO(src)\n        return cls._parse_and_create_from_stream(stream=ssrc,", "get_from_string: the string is wrapped without universal newlines"),
     ("C13", "dendropy/datamodel/basemodel.py", "        with open(src, *open_args) as fsrc:\n            return self._parse_and_add_from_stream(stream=fsrc, schema=schema, **kwargs)",
      "        with open(src, *open_args) as fsrc:\n            return self._parse_and_add_from_stream(stream=fsrc, schema=schema)", "read_from_path: reader options dropped"),
+    ("C19", "dendropy/datamodel/charmatrixmodel.py", "        self.fill(value=value, size=size, append=append)", "        self.fill(value=value, size=size)",
+     "pack: `append` not passed on to fill"),
     ("C19", "dendropy/datamodel/charmatrixmodel.py", "            if taxon not in to_keep:\n                del self._taxon_sequence_map[taxon]",
      "            if taxon in to_keep:\n                del self._taxon_sequence_map[taxon]", "keep_sequences: membership test inverted"),
     ("C19", "dendropy/datamodel/charmatrixmodel.py", "        for taxon in taxa:\n            try:\n                del self._taxon_sequence_map[taxon]\n            except KeyError:\n                pass",
